@@ -31,7 +31,9 @@ import (
 // ---- scenarios ----
 
 type Step struct {
-	K     string   `json:"k"`            // C2S S2C SetH SendH SetT CloseSend RecvEOF CHeader Ret Cancel
+	K     string   `json:"k"`            // C2S S2C SetH SendH SetT CloseSend RecvEOF CHeader Ret Cancel CtxEnd
+	// CtxEnd: as Cancel, but the handler then goes on with the steps that follow (SetH SendH SetT, S2C = a
+	// SendMsg, RecvEOF = a RecvMsg; what these return to the handler is not recorded) up to its Ret
 	M     int      `json:"m,omitempty"`  // message payload (C2S, S2C), response payload (Ret ok of unary shapes)
 	MD    [][2]int `json:"md,omitempty"` // metadata pairs (key index, value)
 	Ok    bool     `json:"ok,omitempty"` // Ret: handler returns nil
@@ -43,12 +45,21 @@ type Step struct {
 	// handler passes the very map object of its previous metadata step again (MD = its contents now)
 	Mut   int  `json:"mut,omitempty"`
 	Reuse bool `json:"reuse,omitempty"`
+	// Cancel: the context ends because its deadline expires (DeadlineExceeded) instead of a cancel
+	DL bool `json:"dl,omitempty"`
+	// CHeader directly after the SendH that sends the headers: the client is already blocked in Header()
+	// when the handler calls SendHeader (the step is where Header() returns)
+	Early bool `json:"early,omitempty"`
 }
 
 type Scenario struct {
 	Shape     string `json:"shape"` // unary unaryAsStream serverStream clientStream bidi
 	Req       int    `json:"req"`
 	PreCancel bool   `json:"precancel,omitempty"`
+	// PreDL (with PreCancel): the context the call is made on is past its deadline rather than cancelled
+	PreDL bool `json:"predl,omitempty"`
+	// OMD: user metadata the client attaches to its context (request metadata)
+	OMD [][2]int `json:"omd,omitempty"`
 	// the client modifies, in place, the maps Header()/Trailer() gave it and the outgoing metadata it
 	// attached to its context once the call has started
 	CMut  bool   `json:"cmut,omitempty"`
@@ -215,6 +226,42 @@ func userMD(md metadata.MD) [][2]int {
 	return out
 }
 
+// ---- a context whose deadline expires when the driver says so ----
+
+// fakeDeadlineCtx has a deadline (far away, or already past) and ends with context.DeadlineExceeded at
+// the moment expire is called: deadline expiry at a chosen point of a call, without a timer.
+type fakeDeadlineCtx struct {
+	context.Context // values (outgoing metadata)
+	deadline        time.Time
+	done            chan struct{}
+	mu              sync.Mutex
+	err             error
+}
+
+func newFakeDeadlineCtx(parent context.Context, expired bool) *fakeDeadlineCtx {
+	c := &fakeDeadlineCtx{Context: parent, deadline: time.Now().Add(time.Hour), done: make(chan struct{})}
+	if expired {
+		c.deadline = time.Now().Add(-time.Second)
+		c.expire()
+	}
+	return c
+}
+func (c *fakeDeadlineCtx) Deadline() (time.Time, bool) { return c.deadline, true }
+func (c *fakeDeadlineCtx) Done() <-chan struct{}       { return c.done }
+func (c *fakeDeadlineCtx) Err() error {
+	c.mu.Lock()
+	defer c.mu.Unlock()
+	return c.err
+}
+func (c *fakeDeadlineCtx) expire() {
+	c.mu.Lock()
+	if c.err == nil {
+		c.err = context.DeadlineExceeded
+		close(c.done)
+	}
+	c.mu.Unlock()
+}
+
 // ---- messages ----
 
 func mkReq(shape string, m int) proto.Message {
@@ -319,6 +366,7 @@ type callCtl struct {
 	mu            sync.Mutex
 	harnessBug    string
 	incoming      []string // request metadata under outKey as the handler sees it when it returns
+	incomingUser  [][2]int // user request metadata as the handler sees it when it returns
 	incomingExtra bool
 	incomingSeen  bool
 	received      []held // messages the server received, with the value seen on receipt
@@ -365,6 +413,11 @@ func (s *scriptSrv) get(ctx context.Context) *callCtl {
 	// a controller nobody listens to: the handler returns at once
 	c := &callCtl{cmd: make(chan srvCmd), res: make(chan Obs, 4), entered: make(chan Obs, 1), exited: make(chan struct{}), auto: true}
 	return c
+}
+
+func incomingUser(ctx context.Context) [][2]int {
+	md, _ := metadata.FromIncomingContext(ctx)
+	return userMD(md)
 }
 
 type sops struct {
@@ -436,6 +489,7 @@ func (c *callCtl) interp(o sops) Step {
 			in, _ := metadata.FromIncomingContext(o.ctx)
 			c.mu.Lock()
 			c.incoming = append([]string{}, in.Get(outKey)...)
+			c.incomingUser = userMD(in)
 			c.incomingExtra = len(in.Get(outKeyLate)) > 0
 			c.incomingSeen = true
 			c.mu.Unlock()
@@ -460,10 +514,10 @@ func (s *scriptSrv) Unary(ctx context.Context, req *testproto.UnaryRequest) (*te
 	defer close(c.exited)
 	c.hold(req)
 	if c.auto {
-		c.entered <- Obs{K: "entered", M: val(req)}
+		c.entered <- Obs{K: "entered", M: val(req), MD: incomingUser(ctx)}
 		return nil, ctx.Err()
 	}
-	c.entered <- Obs{K: "entered", M: val(req)}
+	c.entered <- Obs{K: "entered", M: val(req), MD: incomingUser(ctx)}
 	st := c.interp(sops{
 		ctx:   ctx,
 		setH:  func(md metadata.MD) error { return grpc.SetHeader(ctx, md) },
@@ -489,8 +543,12 @@ func streamOps[Req, Res any](shape string, stream grpc.ServerStream, mk func(int
 			return any(m).(proto.Message), err
 		},
 		send: func(v int) (proto.Message, error) {
-			m := mk(v)
-			return any(m).(proto.Message), stream.SendMsg(m)
+			m := any(mk(v)).(proto.Message)
+			err := stream.SendMsg(m)
+			// SendMsg has returned: the message is the handler's again (a handler that fills one
+			// message over and over); what the client receives must be what was sent
+			scribble(m, 555)
+			return m, err
 		},
 		setH:  stream.SetHeader,
 		sendH: stream.SendHeader,
@@ -502,7 +560,7 @@ func (s *scriptSrv) ServerStream(req *testproto.ServerStreamRequest, stream grpc
 	c := s.get(stream.Context())
 	defer close(c.exited)
 	c.hold(req)
-	c.entered <- Obs{K: "entered", M: val(req)}
+	c.entered <- Obs{K: "entered", M: val(req), MD: incomingUser(stream.Context())}
 	if c.auto {
 		return stream.Context().Err()
 	}
@@ -514,7 +572,7 @@ func (s *scriptSrv) ServerStream(req *testproto.ServerStreamRequest, stream grpc
 func (s *scriptSrv) ClientStream(stream grpc.ClientStreamingServer[testproto.ClientStreamRequest, testproto.ClientStreamResponse]) error {
 	c := s.get(stream.Context())
 	defer close(c.exited)
-	c.entered <- Obs{K: "entered", M: -1}
+	c.entered <- Obs{K: "entered", M: -1, MD: incomingUser(stream.Context())}
 	if c.auto {
 		return stream.Context().Err()
 	}
@@ -528,7 +586,7 @@ func (s *scriptSrv) ClientStream(stream grpc.ClientStreamingServer[testproto.Cli
 func (s *scriptSrv) BidiStream(stream grpc.BidiStreamingServer[testproto.BidiStreamRequest, testproto.BidiStreamResponse]) error {
 	c := s.get(stream.Context())
 	defer close(c.exited)
-	c.entered <- Obs{K: "entered", M: -1}
+	c.entered <- Obs{K: "entered", M: -1, MD: incomingUser(stream.Context())}
 	if c.auto {
 		return stream.Context().Err()
 	}
@@ -608,6 +666,7 @@ func (c *client) loop() {
 			c.sent = append(c.sent, req)
 			c.mu.Unlock()
 			err := c.stream.SendMsg(req)
+			scribble(req, 555) // the request is the client's again as soon as SendMsg has returned
 			c.res <- Obs{K: "send", Ok: err == nil}
 		case "closesend":
 			err := c.stream.CloseSend()
@@ -654,6 +713,7 @@ type driver struct {
 	stuck    bool
 	cPending int // client results not yet collected
 	returned bool
+	gone     bool // the client's context has ended (CtxEnd): handler-side results are no longer recorded
 }
 
 func (d *driver) note(f string, a ...any) { d.tr.Notes = append(d.tr.Notes, fmt.Sprintf(f, a...)) }
@@ -688,7 +748,7 @@ func (d *driver) startS(c srvCmd) bool {
 func (d *driver) waitS() (Obs, bool) {
 	select {
 	case o := <-d.ctl.res:
-		if o.K != "sett" {
+		if o.K != "sett" && !d.gone {
 			d.tr.Server = append(d.tr.Server, o)
 		}
 		return o, true
@@ -727,7 +787,22 @@ func runScenario(sc Scenario, srv *scriptSrv, cc grpc.ClientConnInterface) (tr T
 	callSeq++
 	id := strconv.FormatInt(callSeq, 10)
 	outMD := metadata.Pairs(callIDKey, id, outKey, "5")
-	ctx, cancel := context.WithCancel(metadata.NewOutgoingContext(context.Background(), outMD))
+	for _, kv := range sc.OMD {
+		outMD.Append(keyName(kv[0]), strconv.Itoa(kv[1]))
+	}
+	usesDeadline := sc.PreDL
+	for _, st := range sc.Steps {
+		usesDeadline = usesDeadline || ((st.K == "Cancel" || st.K == "CtxEnd") && st.DL)
+	}
+	var ctx context.Context
+	var cancel context.CancelFunc
+	if usesDeadline {
+		// the end of this context is a deadline expiry, at the moment the driver chooses
+		f := newFakeDeadlineCtx(metadata.NewOutgoingContext(context.Background(), outMD), sc.PreCancel && sc.PreDL)
+		ctx, cancel = f, f.expire
+	} else {
+		ctx, cancel = context.WithCancel(metadata.NewOutgoingContext(context.Background(), outMD))
+	}
 	defer cancel()
 	defer srv.drop(id)
 	ctl := &callCtl{shape: sc.Shape, cmd: make(chan srvCmd), res: make(chan Obs, 4), entered: make(chan Obs, 1),
@@ -801,12 +876,22 @@ func runScenario(sc Scenario, srv *scriptSrv, cc grpc.ClientConnInterface) (tr T
 		// the call has started: the client goes on using "its" metadata map
 		outMD[outKey][0] = "66"
 		outMD[outKeyLate] = []string{"1"}
+		for k := 0; k < nKeys; k++ {
+			if v := outMD[keyName(k)]; len(v) > 0 {
+				v[0] = "67"
+			}
+			outMD[keyName(k)] = append(outMD[keyName(k)], "68")
+		}
 	}
 
 	// ---- steps ----
-	for _, st := range sc.Steps {
+	for i, st := range sc.Steps {
 		if d.stuck {
 			break
+		}
+		if st.K == "SendH" && i+1 < len(sc.Steps) && sc.Steps[i+1].K == "CHeader" && sc.Steps[i+1].Early && !d.gone {
+			d.startC("header", 0) // blocks until the headers are there
+			time.Sleep(300 * time.Microsecond)
 		}
 		switch st.K {
 		case "C2S":
@@ -815,7 +900,30 @@ func runScenario(sc Scenario, srv *scriptSrv, cc grpc.ClientConnInterface) (tr T
 				d.waitS()
 			}
 			d.waitC()
+		case "CtxEnd":
+			if !pendingRecv {
+				d.startC("recv", 0)
+				pendingRecv = true
+				time.Sleep(200 * time.Microsecond)
+			}
+			cancel()
+			if unary {
+				d.finishClient()
+			} else {
+				d.waitC()
+			}
+			pendingRecv = false
+			if d.startS(srvCmd{k: "waitdone"}) {
+				d.waitS()
+			}
+			d.gone = true
 		case "S2C":
+			if d.gone { // nobody receives any more: the handler's SendMsg returns an error (or not: a real server may not know yet)
+				if d.startS(srvCmd{k: "send", m: st.M}) {
+					d.waitS()
+				}
+				continue
+			}
 			d.startC("recv", 0)
 			pendingRecv = true
 			if d.startS(srvCmd{k: "send", m: st.M}) {
@@ -846,9 +954,18 @@ func runScenario(sc Scenario, srv *scriptSrv, cc grpc.ClientConnInterface) (tr T
 				d.waitS()
 			}
 		case "CHeader":
-			d.startC("header", 0)
+			if !st.Early {
+				d.startC("header", 0)
+			}
 			d.waitC()
 		case "Ret":
+			if d.gone {
+				if d.startS(srvCmd{k: "ret", step: st}) {
+					d.waitExited()
+					d.returned = true
+				}
+				continue
+			}
 			if !pendingRecv {
 				d.startC("recv", 0)
 				pendingRecv = true
@@ -968,6 +1085,10 @@ func (d *driver) checkIncoming() {
 	}
 	if !d.ctl.incomingSeen {
 		return
+	}
+	want := userMD(mkMD(d.sc.OMD))
+	if !sameMD(d.ctl.incomingUser, want) {
+		d.note("aliasing: the handler's incoming metadata shows %v when it returns, after the client modified its outgoing metadata map; sent was %v", d.ctl.incomingUser, want)
 	}
 	if len(d.ctl.incoming) != 1 || d.ctl.incoming[0] != "5" || d.ctl.incomingExtra {
 		d.note("aliasing: the handler's incoming metadata shows %v (late key: %v) after the client modified its outgoing metadata map; sent was [5]", d.ctl.incoming, d.ctl.incomingExtra)
